@@ -2,6 +2,7 @@ package props
 
 import (
 	"fmt"
+	"strings"
 	"testing"
 
 	"github.com/hattya/go.sh/interp"
@@ -115,9 +116,15 @@ func (c07) Judge(c *Case, obs []*Obs) []Finding {
 				env.Aliases[kv[0]] = kv[1]
 			}
 		}
-		cmds, comments, err := parser.ParseCommands(env, "sim", text)
+		rd := strings.NewReader(text)
+		cmds, comments, err := parser.ParseCommands(env, "sim", rd)
 		alone[i] = fmt.Sprintf("cmds=%s\ncomments=%s\n%s", Dump(cmds, 0), Dump(comments, 0), DumpErr(err))
 		aloneErr[i] = err != nil
+		if len(c.Aliases) > 0 && rd.Len() != 0 {
+			// alias text changed the shape of this item (a newline in a value made a later word a reserved word, ...):
+			// parsed alone, one call does not consume it, so it is not ONE complete command under this table
+			aloneErr[i] = true
+		}
 		if err != nil && len(c.Aliases) == 0 {
 			add(Finding{Class: "item-rejected", Detail: fmt.Sprintf("generated complete command %d is rejected on its own: %v; text %q", i, err, shortStr(text, 200))})
 		}
